@@ -152,6 +152,25 @@ def _scripted(g, ops):
     return g._mk(g.inits[0], path)
 
 
+def _complete(g, walk):
+    """Net walks must not stop in the middle of an attempt (the real swarm cannot un-start a connection): follow
+    att_step edges until the attempt is over.  State layout: [mem, disk, up, call, [dir, peer, ip, tpt, k, pre, opt], shown]."""
+    steps = walk["steps"]
+    if not steps:
+        return walk
+    cur = graph.key(steps[-1]["state"])
+    for _ in range(10):
+        if g.states[cur][4][4] == 0:
+            break
+        nxt = [ei for ei in g.out.get(cur, ()) if g.edges[ei][1]["name"] == "att_step"]
+        if not nxt:
+            raise MachineryError("attempt in progress without an att_step edge")
+        _s, op, t = g.edges[nxt[0]]
+        steps.append({"op": op, "state": g.states[t]})
+        cur = t
+    return walk
+
+
 def _printed(args):
     ctx, (name, consts), beh_dir, mode = args
     cfg = tlc.subst_cfg("C10_MC.cfg", consts, replace=[
@@ -182,6 +201,8 @@ def _printed(args):
     if name.startswith("net") and ctx.tier == "thorough":
         # the same transitions again along other paths, with other address forms chosen by the harness
         walks += g.covering_walks(seed=ctx.seed + 104729, max_len=100)
+    if beh_dir.endswith("net"):
+        walks = [_complete(g, w) for w in walks]
     if name.startswith("alias"):
         walks = [_scripted(g, ALIAS_SCRIPT)] + walks      # the history of the repaired finding first: a short artefact
     steps = sum(len(w["steps"]) for w in walks)
@@ -256,12 +277,14 @@ def run(ctx):
     if res["distinct"] < edges_total:
         raise MachineryError("replay executed %d distinct transitions of %d" % (res["distinct"], edges_total))
     nx = net.get("extra") or {}
-    if not net["mismatches"]:
-        for k in ("attempts_admitted", "attempts_refused", "attempts_out", "attempts_in", "attempts_tcp", "attempts_quic",
-                  "attempts_ws", "attempts_form_dns", "attempts_form_mapped", "attempts_refused_at_peerdial",
-                  "attempts_refused_at_addrdial", "attempts_refused_at_accept", "attempts_refused_at_secured-in", "reopens"):
-            if not nx.get(k):
-                raise MachineryError("vacuity guard: network composition ran no %s" % k)
+    for k in ("attempts_admitted", "attempts_refused", "attempts_out", "attempts_in", "attempts_tcp", "attempts_quic", "attempts_ws",
+              "attempts_wt", "attempts_rtc", "attempts_form_dns", "attempts_form_mapped", "attempts_refused_at_peerdial",
+              "attempts_refused_at_addrdial", "attempts_refused_at_accept", "attempts_refused_at_secured_in", "reopens",
+              "attempts_pre_relayed", "attempts_pre_direct", "attempts_end_reused", "attempts_end_noconn",
+              "attempts_holepunch_admitted", "attempts_holepunch_refused_at_listener",
+              "attempts_with_interleaved_rule_calls") + tuple("attempts_opt_" + o for o in ALL_OPTS):
+        if not nx.get(k):
+            raise MachineryError("vacuity guard: network composition ran no %s" % k)
 
     states = sum(r[1] for r in eres) + sum(r[1] for r in rres) + sum(r[1] for r in nress) + ares[1]
     trans = sum(r[2] for r in eres) + sum(r[2] for r in rres) + sum(r[2] for r in nress) + ares[2]
